@@ -20,7 +20,7 @@ from .refs_clauses import Clauses
 PROPERTY = "C17"
 LAYOUTS = {"m22-a1": [(2, 2), 1], "a2": [2], "a1-a1": [1, 1], "a2-a1": [2, 1], "s-a2": [0, 2], "a3": [3], "a2-a2": [2, 2], "a1-a3": [1, 3]}
 BOUNDS = {
-    "quick": dict(layouts=["a2", "a1-a1", "a2-a1", "s-a2"], bisection_steps=2, outer_iterations=1,
+    "quick": dict(layouts=["a2", "a1-a1", "a2-a1", "s-a2"], bisection_steps=2, outer_iterations="1 (2 in the idlefirst items)",
                   bounds=["scalar", "per-variable array"], maxvol=["symbolic", "None (= initial volume)"],
                   move=["scalar", "per-variable array (one item)"], tolx=["0", "symbolic (a2, a1-a1: break branch)"],
                   positive_gradient_item="a2-a1 with c_0 < 0"),
@@ -33,7 +33,9 @@ OUTSIDE = [
     "bisection (2^30 paths); here the bisection is bounded to 2 (thorough 3) steps through the public arguments "
     "l1init / l2init / l1l2tol, and only the clauses that do not depend on the number of steps are claimed: NOT decided",
     "convergence of the iteration to the analytic optimum of sum c_i / x_i: NOT decided",
-    "more than one outer iteration in one symbolic run (two chained iterations do not finish; the step is inductive)",
+    "more than one outer iteration in one symbolic run, except the 'idlefirst' items (two iterations, the first with an "
+    "objective that does not depend on the design, so that volume is lost and the bracket/target carried into the second "
+    "iteration is observable); two ordinary chained iterations do not finish",
     "more variable signals / variables than the bound; designs with xmin <= 0 (the update multiplies by sqrt(-g/lambda))",
     "verbosity >= 1 printing; IEEE rounding",
 ]
@@ -52,12 +54,14 @@ def items(tier):
     b = BOUNDS[tier]
     out = []
 
-    def add(lay, steps=2, bnd="scalar", maxvol="sym", move="scalar", tolx="0", pos=False, alias=False):
-        ident = "oc-%s-b%d-%s-vol%s-mv%s-tolx%s%s%s" % (lay, steps, "bvec" if bnd == "vector" else "bsc", maxvol,
-                                                         "v" if move == "vector" else "s", tolx, "-posgrad" if pos else "",
-                                                         "-sharedinit" if alias else "")
+    def add(lay, steps=2, bnd="scalar", maxvol="sym", move="scalar", tolx="0", pos=False, alias=False, idle_first=False, iters=1):
+        ident = "oc-%s-b%d-%s-vol%s-mv%s-tolx%s%s%s%s" % (lay, steps, "bvec" if bnd == "vector" else "bsc", maxvol,
+                                                           "v" if move == "vector" else "s", tolx, "-posgrad" if pos else "",
+                                                           "-sharedinit" if alias else "",
+                                                           "-idlefirst" if idle_first else ("-it%d" % iters if iters > 1 else ""))
         out.append(dict(kind="oc", id=ident, layout=lay, steps=steps, bounds=bnd, maxvol=maxvol, move=move, tolx=tolx, pos=pos,
-                        alias=alias, **(dict(timeout=400 if tier == "quick" else 1500) if pos else {})))
+                        alias=alias, idle_first=idle_first, iters=(2 if idle_first else iters),
+                        **(dict(timeout=400 if tier == "quick" else 1500) if (pos or idle_first or iters > 1) else {})))
     for lay in b["layouts"]:
         add(lay, bnd="scalar", maxvol="sym")
         add(lay, bnd="vector", maxvol="sym")
@@ -68,6 +72,11 @@ def items(tier):
     add("a2-a1", pos=True)
     add("a2-a2", alias=True)       # both variable signals initialised from one user array
     add("m22-a1")                  # a 2-D variable array (offsets count entries, not rows)
+    # two outer iterations, the first with an objective that does not depend on the design (every variable goes to its
+    # lower limit, volume is lost): the second update must still aim at the volume prescribed at the start
+    add("a2", maxvol="none", idle_first=True)
+    add("a1-a1", maxvol="sym", idle_first=True)
+    # (two ordinary outer iterations in one run - add("a2", maxvol="none", iters=2) - do not finish in 400 s)
     if tier == "thorough":
         add("a3", pos=True, bnd="vector")
         add("a2", steps=3)
@@ -94,12 +103,16 @@ def _user_module():
     class C17Inverse(pym.Module):
         """f = sum_k sum_i coef[k][i] / x_k[i]  with its hand-written adjoint."""
 
-        def _prepare(self, coef=None):
+        def _prepare(self, coef=None, idle_calls=0, offset=0):
+            self.coef_full, self.idle_calls, self.offset, self.ncalls = coef, idle_calls, offset, 0
             self.coef = coef
 
         def _response(self, *xs):
             self.xs = xs
-            tot = 0
+            # staged objective: during the first `idle_calls` evaluations the design does not enter (all gradients zero)
+            self.coef = [0 * ck for ck in self.coef_full] if self.ncalls < self.idle_calls else self.coef_full
+            self.ncalls += 1
+            tot = self.offset
             for ck, xk in zip(self.coef, xs):
                 for cc, xx in zip(flat(ck), flat(xk)):
                     tot = tot + cc / xx
@@ -235,7 +248,9 @@ def sc_oc(V, P, cfg):
     else:
         sx = [pym.Signal("x%d" % k, (v.copy() if isinstance(v, np.ndarray) else v)) for k, v in enumerate(x0)]
     sf = pym.Signal("f")
-    net = pym.Network(Mod(sx, sf, coef=coef))
+    idle = bool(cfg.get("idle_first"))
+    iters = cfg.get("iters", 1)
+    net = pym.Network(Mod(sx, sf, coef=coef, idle_calls=1, offset=1) if idle else Mod(sx, sf, coef=coef))
     saved = {}
     if V.symbolic:
         _ctx.current().stubs.add("builtin max inside pymoto.routines -> If-terms")
@@ -244,7 +259,7 @@ def sc_oc(V, P, cfg):
     try:
         with warnings.catch_warnings(record=True) as wlist:
             warnings.simplefilter("always")
-            rt.minimize_oc(net, sx, sf, tolx=tolx, tolf=1e-4, maxit=1, xmin=xmin_in, xmax=xmax_in, move=move_in,
+            rt.minimize_oc(net, sx, sf, tolx=tolx, tolf=(0.0 if iters > 1 else 1e-4), maxit=iters, xmin=xmin_in, xmax=xmax_in, move=move_in,
                            l1init=l1init, l2init=l2init, l1l2tol=l1l2tol, maxvol=maxvol, verbosity=0)
     finally:
         if V.symbolic:
@@ -265,6 +280,17 @@ def sc_oc(V, P, cfg):
         vol = xflat[0]
         for v in xflat[1:]:
             vol = vol + v
+    xstart = xflat
+    if idle:
+        # first update: zero gradients, x * sqrt(0 / lambda) = 0 clipped to the lower limit for every multiplier
+        # (written as the same update from the zero gradients, so that both sides are built from the same terms)
+        grad0 = [-(0 * cflat[j]) / (xstart[j] * xstart[j]) for j in range(n)]
+        xflat = _oc_reference(xstart, grad0, xmin_l, xmax_l, move_l, vol, l1init, l2init, l1l2tol)
+        grad = [-cflat[j] / (xflat[j] * xflat[j]) for j in range(n)]
+    elif iters > 1:
+        for _ in range(iters - 1):
+            xflat = _oc_reference(xflat, grad, xmin_l, xmax_l, move_l, vol, l1init, l2init, l1l2tol)
+            grad = [-cflat[j] / (xflat[j] * xflat[j]) for j in range(n)]
     want = _oc_reference(xflat, grad, xmin_l, xmax_l, move_l, vol, l1init, l2init, l1l2tol)
     fl = []
     shapes_ok = True
